@@ -196,6 +196,30 @@ done:
   ret void
 }
 
+define void @nested_eh(i32 %a, i8* %p) personality i8* bitcast (i32 (...)* @__CxxFrameHandler3 to i8*) {
+entry:
+  invoke void @vf() to label %done unwind label %inner.dispatch
+inner.dispatch:
+  %cs1 = catchswitch within none [label %inner.catch] unwind label %outer.dispatch
+inner.catch:
+  %cp1 = catchpad within %cs1 [i8* null, i32 64, i8* null]
+  catchret from %cp1 to label %done
+outer.dispatch:
+  %cs2 = catchswitch within none [label %outer.catch, label %outer.catch2] unwind to caller
+outer.catch:
+  %cp2 = catchpad within %cs2 [i32 %a, i8* %p]
+  catchret from %cp2 to label %tail
+outer.catch2:
+  %cp3 = catchpad within %cs2 [i8* null, i32 64, i8* null]
+  catchret from %cp3 to label %tail
+tail:
+  indirectbr i8* %p, [label %done, label %tail2]
+tail2:
+  %r = invoke i32 (i32, ...) @fv(i32 %a, i32 %a, i32 %a) to label %done unwind label %inner.dispatch
+done:
+  ret void
+}
+
 define void @nested_pad() personality i8* bitcast (i32 (...)* @__CxxFrameHandler3 to i8*) {
 entry:
   invoke void @vf() to label %done unwind label %outer
